@@ -164,7 +164,11 @@ TSilent == Synced /\ UNCHANGED <<l, scn, want, win, obs>> /\ (CallerNeed \/ Recv
 Begun == {q \in DOMAIN rst : rst[q] = "begun" /\ want[q] # 2}
 MatchNow(q) == (want[q] = 1) <=> (pkt[q].id \in DOMAIN resp)
 InWin(q) == {c \in win : cid[c] = pkt[q].id /\ pc[c] \in (IF want[q] = 1 THEN {"reg1", "reg2"} ELSE {"unreg1", "unreg2"})}
-Ready == {q \in Begun : MatchNow(q) \/ InWin(q) # {}}
+\* (a Delete is forced only when the receiver's own report is the next event: a receiver that began later may still have found
+\* the entry -- RecvBegin{q}, RecvBegin{r}, lookup r: found, Delete, lookup q: not found -- seen with three copies of an answer
+\* on a busy machine; until then the Delete is placed by the call's own Unregistered event)
+NeedNow(q) == Here /\ E.e = "RecvLookup" /\ E.q = q
+Ready == {q \in Begun : MatchNow(q) \/ (InWin(q) # {} /\ (want[q] = 1 \/ NeedNow(q)))}
 Forced == LET q == CHOOSE q \in Ready : \A r \in Ready : q <= r IN
           IF MatchNow(q) THEN Lookup(q)
           ELSE LET c == CHOOSE c \in InWin(q) : TRUE IN Reg1(c) \/ Reg2(c) \/ Unreg1(c) \/ Unreg2(c)
